@@ -10,7 +10,9 @@ permutation of the registration order and of the Union members must give the
 outcome of the canonical order; the exact class of the result is compared
 with the reference.
 """
+import abc
 import itertools
+import pathlib
 from typing import List, Optional, Union
 
 import yaml
@@ -41,7 +43,9 @@ ASSUMPTIONS = [
     '(two of them match the same keys); diamond; siblings with '
     'discriminating custom recognisers; a custom recogniser above '
     'auto-recognised subclasses; Union/Optional over their members, incl. a '
-    'Union one of whose members is ambiguous in itself',
+    'Union one of whose members is ambiguous in itself; a chain whose '
+    'middle class is abstract only by inheritance; Unions of built-in '
+    'scalars with an enum, a Path, a UserString (scalar documents)',
     'documents: a mapping with any subset of the hierarchy\'s keys, each '
     'value a scalar with a FREE tag, top-level tag FREE (any string of '
     'length <= 40)',
@@ -51,6 +55,32 @@ ASSUMPTIONS = [
     'order independence: all permutations of <= 3 Union members and all '
     'permutations of <= 4 registered classes, varied one at a time',
 ]
+
+# a hierarchy whose middle class is abstract ONLY BY INHERITANCE: it
+# neither lists abc.ABC among its direct bases nor defines an abstract method
+# itself
+class IA(abc.ABC):
+    def __init__(self, a: int) -> None:
+        self.a = a
+
+    @abc.abstractmethod
+    def f(self) -> int: ...
+
+
+class IM(IA):
+    def __init__(self, a: int, m: int) -> None:
+        super().__init__(a)
+        self.m = m
+
+
+class IL(IM):
+    def __init__(self, a: int, m: int, l: int) -> None:     # noqa: E741
+        super().__init__(a, m)
+        self.l = l                                          # noqa: E741
+
+    def f(self) -> int:
+        return 0
+
 
 # name -> (expected type, registered classes (canonical order), keys,
 #          value tag each key needs)
@@ -72,6 +102,14 @@ H = [
     ('union_ambiguous_member', Union[Shape, zoo.Other],
      [Shape, Circle, Square, Ellipse, zoo.Other],
      ['center', 'radius', 'width', 'ratio']),
+    ('inherited_abstract', IA, [IA, IM, IL], ['a', 'm', 'l']),
+    ('union_inherited_abstract', Union[IM, zoo.Other], [IA, IM, IL, zoo.Other],
+     ['a', 'm', 'l']),
+    # scalar positions where a built-in and a class written as a string
+    # compete (only the scalar document matters)
+    ('union_str_enum', Union[str, zoo.Color, int], [zoo.Color], ['a']),
+    ('union_path_str', Union[int, pathlib.Path, str], [], ['a']),
+    ('union_ustr', Union[float, zoo.UStr, bool], [zoo.UStr], ['a']),
 ]
 
 
@@ -118,7 +156,8 @@ def _recognizer_level(hi, p0, p1, p2, p3, t0, t1, t2, t3, toptag, kindsel,
         want = R.recognize(doc2, t)
     except ref.NoClaim:
         return True
-    got, _ = Recognizer(_regdict(reg), {}).recognize(doc, t)
+    got, _ = Recognizer(_regdict(reg),
+                        {pathlib.Path: '!Path'}).recognize(doc, t)
     got = set(got)
     if not SYMBOLIC:
         note(hierarchy=name, keys=[k for i, k in enumerate(keys)
@@ -211,6 +250,10 @@ def recognizer_reach(p0: bool, p1: bool, p2: bool, p3: bool, t0: str,
 
 # ------------------------------------------------------------ load level
 _PERM_MODELS = [
+    ('str_enum', Union[str, zoo.Color, int], [zoo.Color]),
+    ('path_str', Union[int, str, pathlib.Path], []),
+    ('ustr_str', Union[float, zoo.UStr, str], [zoo.UStr]),
+    ('inherited_abstract', Union[IA, zoo.Other], [IA, IM, IL, zoo.Other]),
     ('fan_union', Union[Circle, Square, int], [Shape, Circle, Square,
                                                Ellipse]),
     ('chain_union', Union[HC, HA, str], [HA, HB, HC]),
@@ -243,7 +286,19 @@ for _n, _t, _reg in _PERM_MODELS:
     _LOADERS.append(_variants)
 NVARIANTS = [len(v) for v in _LOADERS]
 
+_SCALAR_DOCS = [lambda t: scalar(T_STR, 'red'), lambda t: scalar(T_STR, 'a/b'),
+                lambda t: scalar(T_INT, '1'),
+                lambda t: scalar('tag:yaml.org,2002:bool', 'true')]
 _LDOCS = [
+    _SCALAR_DOCS, _SCALAR_DOCS, _SCALAR_DOCS,
+    # inherited_abstract
+    [lambda t: mapping([(scalar(T_STR, 'a'), scalar(T_INT, '1')),
+                        (scalar(T_STR, 'm'), scalar(T_INT, '2'))], tag=t),
+     lambda t: mapping([(scalar(T_STR, 'a'), scalar(T_INT, '1')),
+                        (scalar(T_STR, 'm'), scalar(T_INT, '2')),
+                        (scalar(T_STR, 'l'), scalar(T_INT, '3'))], tag=t),
+     lambda t: mapping([(scalar(T_STR, 'a'), scalar(T_INT, '1'))], tag=t),
+     lambda t: mapping([(scalar(T_STR, 'center'), seq([]))], tag=t)],
     # fan_union
     [lambda t: mapping([(scalar(T_STR, 'center'), seq([])),
                         (scalar(T_STR, 'radius'), scalar(T_FLOAT, '1.0'))],
@@ -275,7 +330,8 @@ _LDOCS = [
      lambda t: scalar(T_INT, '1')],
 ]
 _TOPTAGS = [T_MAP, '!Circle', '!Ellipse', '!Square', '!Shape', '!HA', '!HC',
-            '!HB', '!DD', '!DB', '!DA', '!Zz', '!Color', T_STR]
+            '!HB', '!DD', '!DB', '!DA', '!Zz', '!Color', T_STR, '!IM', '!IL',
+            '!UStr', '!Other']
 
 
 def _sig(loader, tree):
@@ -319,7 +375,7 @@ def _order(m, d, tt, variant):
 
 def order(m: int, d: int, tt: int, variant: int) -> bool:
     """
-    pre: 0 <= m < 4 and 0 <= d < 4 and 0 <= tt < 14 and 0 <= variant < 30
+    pre: 0 <= m < 8 and 0 <= d < 4 and 0 <= tt < 18 and 0 <= variant < 30
     post: __return__
     """
     s = slice_no(-1)
@@ -331,11 +387,13 @@ def order(m: int, d: int, tt: int, variant: int) -> bool:
 
 def order_reach(m: int, d: int, tt: int, variant: int) -> bool:
     """
-    pre: 0 <= m < 4 and 0 <= d < 4 and 0 <= tt < 14 and 0 <= variant < 30
+    pre: 0 <= m < 8 and 0 <= d < 4 and 0 <= tt < 18 and 0 <= variant < 30
     post: __return__
     """
+    if m != 4 or d != 0 or tt != 2:
+        return True
     r = _order(m, d, tt, variant)
-    return not (r and m == 0 and d == 0 and tt == 2 and variant == 7)
+    return not (r and variant == 7)
 
 
 CONDITIONS = [
@@ -354,8 +412,8 @@ CONDITIONS = [
     {'fn': 'recognizer_reach', 'slices': [6], 'quick': 60, 'thorough': 60,
      'expect': 'REFUTED',
      'bound': 'reachability twin: !Ellipse disambiguates {center, radius}'},
-    {'fn': 'order', 'slices': list(range(16)), 'quick': 110, 'thorough': 400,
-     'bound': 'load level: 4 models x <= 4 documents x 14 top-level tags x '
+    {'fn': 'order', 'slices': list(range(32)), 'quick': 110, 'thorough': 400,
+     'bound': 'load level: 8 models x <= 4 documents x 18 top-level tags x '
               'every permutation of the Union members (canonical '
               'registration order) and every permutation of the registered '
               'classes (canonical Union order), up to 29 load functions per '
